@@ -527,6 +527,10 @@ fn end_to_end(ctx: &Ctx, t: &mut Tally) -> Value {
         Scenario { name: "nothing at the segment path, not even its directory", args: vec![], chronyd: None, phc: PhcFile::Absent, preexisting: None, observe_ms: 1200, wait_for_publications: 1, ..Scenario::blank() },
         Scenario { name: "72 bytes of 0xAA at the segment path", args: vec![], chronyd: None, phc: PhcFile::Absent, preexisting: Some(vec![0xAA; SEG]), observe_ms: 1200, wait_for_publications: 1, ..Scenario::blank() },
         Scenario { name: "an empty file at the segment path", args: vec!["--max-drift-rate".into(), "7".into()], chronyd: None, phc: PhcFile::Absent, preexisting: Some(vec![]), observe_ms: 1200, wait_for_publications: 1, ..Scenario::blank() },
+        // one of the daemon's output streams cannot be written (a full log disk, a reader of its pipe that is gone)
+        Scenario { name: "nothing at the segment path; the daemon's stderr fails every write", stdio_full: 2, observe_ms: 1200, wait_for_publications: 1, ..Scenario::blank() },
+        Scenario { name: "9 bytes of garbage at the segment path; the daemon's stdout fails every write", stdio_full: 1, preexisting: Some(b"garbage!\n".to_vec()), observe_ms: 1200, wait_for_publications: 1, ..Scenario::blank() },
+        Scenario { name: "a truncated (40-byte) segment at the segment path; the daemon's stdout fails every write", stdio_full: 1, preexisting: Some(vec![0u8; 40]), observe_ms: 1200, wait_for_publications: 1, ..Scenario::blank() },
     ];
     let results: Vec<Result<Value, String>> = std::thread::scope(|s| {
         let hs: Vec<_> = scenarios.iter().map(|sc| { let bin = bin.clone(); s.spawn(move || e2e::run_scenario(&bin, sc)) }).collect();
